@@ -114,6 +114,9 @@ Init == \E n \in 1 .. MaxFiles, P \in PieceLens :
             /\ st = InitSt(recs, kinds, disk, P)
 Next == st.pc # "done" /\ st' = Step(st)
 Spec == Init /\ [][Next]_st
+\* liveness: the iteration ends for every input (weak fairness = the caller keeps calling next())
+FairSpec == Spec /\ WF_st(Next)
+Terminates == <>(st.pc = "done")
 
 Ref(s) == V1Verdicts(s.recs, s.kinds, s.disk, s.P)
 \* C16: the verdict stream is the reference one, piece for piece
